@@ -14,9 +14,10 @@
     through include statements that resolve ([presolve]: the file's own directory, then
     $INCLUDE_DIR). *)
 From Coq Require Import List NArith Bool.
-From TG.Model Require Import Includes Host HostInst.
+From TG.Model Require Import Includes Host HostInst FsOps.
+From TG.Gen Require Import GenFileSystem.
 From TG.Proofs Require Import IncludesGraph IncludesRefine HostIndex IncludesLinks HostHistory
-     HostTheorems HostTotal HostExamples.
+     HostTheorems HostTotal HostExamples GenFileSystemEq.
 Import ListNotations.
 Local Open Scope nat_scope.
 
@@ -166,6 +167,26 @@ Proof. exact ex_index. Qed.
 Example C16_example_sids : forall c, In c [ca; cb_editor; cc; cd] -> NoDup (inc_sids (c_items c)).
 Proof. exact ex_sids. Qed.
 
+(** THE MODEL IS THE SOURCE (tie by translation + proof): the Gallina rendering of the CURRENT
+    crates/ide/src/file_system.rs (FileSet methods, resolve_include_file, collect_sources; list_includes by
+    shape), regenerated on every run by tools/translate/t_filesystem.py into TG.Gen.GenFileSystem, equals
+    the hand model for all arguments ([emb_ids] / [emb_fset]: the model's association lists as FileSets;
+    [model_fso]: the model's implementation of trait FileSystem) *)
+Theorem C16_model_is_source :
+  forall (path istr : Type) (PA : PathAlg path istr) (w : world path istr),
+  (gen_FileSet_new = emb_ids (path := path) [] /\ gen_FileSet_new = emb_fset (path := path) []) /\
+  (forall (l : list (path * N)) f p, gen_FileSet_insert (emb_ids l) f p = emb_ids ((p, f) :: l)) /\
+  (forall (l : list (N * path)) f p, gen_FileSet_insert (emb_fset l) f p = emb_fset ((f, p) :: l)) /\
+  (forall (l : list (path * N)) p, gen_FileSet_file_for_path (emb_ids l) p = assoc p l) /\
+  (forall (l : list (path * N)) f, gen_FileSet_path_for_file (emb_ids l) f =
+               match rassoc f l with Some p => Done p | None => Panic PNoPath end) /\
+  (forall (l : list (N * path)) f, gen_FileSet_contains (emb_fset l) f = fset_mem f l) /\
+  (forall s dirs db fs, gen_resolve_include_file (model_fso w) db fs s dirs =
+                        let '(fs', db', o) := resolve w fs db s dirs in (db', fs', o)) /\
+  (forall fuel db fs root, gen_collect_sources w (model_fso w) fuel db fs root =
+                           collect_result (collect fuel w fs db [root] []) root).
+Proof. exact (@c16_model_is_source). Qed.
+
 Check C16_terminates :
   forall (path istr : Type) (PA : PathAlg path istr) (PAok : PathAlgOk path istr)
          (w : world path istr) fuel0 h (st : @state path istr) p c R fuel,
@@ -201,3 +222,4 @@ Print Assumptions C16_notfound.
 Print Assumptions C16_all_entered.
 Print Assumptions C16_once.
 Print Assumptions C16_index_terminates.
+Print Assumptions C16_model_is_source.
